@@ -675,6 +675,15 @@ void XMLScanner::setParseSettings(XMLScanner* const refScanner)
     setValidationScheme(refScanner->getValidationScheme());
     setSecurityManager(refScanner->getSecurityManager());
     setPSVIHandler(refScanner->getPSVIHandler());
+    setGenerateSyntheticAnnotations(refScanner->getGenerateSyntheticAnnotations());
+    setValidateAnnotations(refScanner->getValidateAnnotations());
+    setIgnoredCachedDTD(refScanner->getIgnoreCachedDTD());
+    setIgnoreAnnotations(refScanner->getIgnoreAnnotations());
+    setDisableDefaultEntityResolution(refScanner->getDisableDefaultEntityResolution());
+    setSkipDTDValidation(refScanner->getSkipDTDValidation());
+    setHandleMultipleImports(refScanner->getHandleMultipleImports());
+    setLowWaterMark(refScanner->fLowWaterMark);
+    setInputBufferSize(refScanner->fBufferSize);
 }
 
 // ---------------------------------------------------------------------------
